@@ -270,14 +270,41 @@ def inspect_decorator(
             )
         )
 
-    # Find the decorator end -- it's either a function definition, a class definition or another decorator
+    # Find the decorator end -- it's either a function definition, a class definition or another decorator.
+    #
+    # A line of the decorator itself can also look like one of these (*e.g.*, a continuation line of the condition
+    # starting with the matrix multiplication operator, ``@another_matrix``). Hence we take the first candidate
+    # for which the decorator text can be parsed.
+    atok = None  # type: Optional[asttokens.asttokens.ASTTokens]
     decorator_end_lineno = None  # type: Optional[int]
+    syntax_error = None  # type: Optional[SyntaxError]
     for i in range(lineno + 1, len(lines)):
         line = lines[i]
 
-        if _DECORATOR_RE.match(line) or _DEF_CLASS_RE.match(line):
-            decorator_end_lineno = i
+        if not _DECORATOR_RE.match(line) and not _DEF_CLASS_RE.match(line):
+            continue
+
+        decorator_end_lineno = i
+        decorator_lines = lines[decorator_lineno:decorator_end_lineno]
+
+        # The comment-only lines are allowed to be indented arbitrarily (*e.g.*, a comment starting at the column 0
+        # between an indented decorator and its function). They would prevent us from dedenting the decorator, so we
+        # blank them out. (We keep the lines as such, since the positions in the text must not change.)
+        decorator_lines = [
+            "\n" if _COMMENT_ONLY_RE.match(line) else line for line in decorator_lines
+        ]
+
+        # We need to dedent the decorator and add a dummy decorate so that we can parse its text as valid source code.
+        decorator_text = textwrap.dedent(
+            "".join(decorator_lines)
+        ) + "def dummy_{}(): pass".format(uuid.uuid4().hex)
+
+        try:
+            atok = asttokens.asttokens.ASTTokens(decorator_text, parse=True)
             break
+        except SyntaxError as err:
+            if syntax_error is None:
+                syntax_error = err
 
     if decorator_end_lineno is None:
         raise SyntaxError(
@@ -287,21 +314,9 @@ def inspect_decorator(
             ).format(lineno + 1, filename, lines[lineno])
         )
 
-    decorator_lines = lines[decorator_lineno:decorator_end_lineno]
-
-    # The comment-only lines are allowed to be indented arbitrarily (*e.g.*, a comment starting at the column 0
-    # between an indented decorator and its function). They would prevent us from dedenting the decorator, so we
-    # blank them out. (We keep the lines as such, since the positions in the text must not change.)
-    decorator_lines = [
-        "\n" if _COMMENT_ONLY_RE.match(line) else line for line in decorator_lines
-    ]
-
-    # We need to dedent the decorator and add a dummy decorate so that we can parse its text as valid source code.
-    decorator_text = textwrap.dedent(
-        "".join(decorator_lines)
-    ) + "def dummy_{}(): pass".format(uuid.uuid4().hex)
-
-    atok = asttokens.asttokens.ASTTokens(decorator_text, parse=True)
+    if atok is None:
+        assert syntax_error is not None
+        raise syntax_error
 
     if not isinstance(atok.tree, ast.Module):
         raise ValueError(
